@@ -145,13 +145,16 @@ package memefish
 
 // @ func memefish.(*Lexer).skipCommentUntil
 // @   props C03 C13
-// @   requires LexInv(l) && len(end) >= 1 && len(end) <= 2
-// @   ensures LexInv(l) && old(l.pos) <= l.pos
+// @   requires LexInv(l) && len(end) >= 1 && len(end) <= 2 && 0 <= opener && l.pos + opener <= len(l.Buffer)
+// @   ensures LexInv(l) && old(l.pos) + opener <= l.pos
 // @   ensures result ==> mustEnd && noPanic && l.pos == len(l.Buffer)
-// @   ensures[C13] closed: !result ==> (l.pos == len(l.Buffer) && !mustEnd) || (l.pos - len(end) >= old(l.pos) && l.Buffer[l.pos - len(end):l.pos] == end)
+// @   ensures[C13] closed: !result ==> (l.pos == len(l.Buffer) && !mustEnd) || (l.pos - len(end) >= old(l.pos) + opener && l.Buffer[l.pos - len(end):l.pos] == end)
+// @   ensures[C13,C14] first: forall k: old(l.pos) + opener <= k && k + len(end) < l.pos ==> !(l.Buffer[k] == end[0] && (len(end) == 1 || l.Buffer[k + 1] == end[1]))
+// @   ensures[C13,C14] eofnone: !result && l.pos == len(l.Buffer) && !(l.pos - len(end) >= old(l.pos) + opener && l.Buffer[l.pos - len(end):l.pos] == end) ==> (forall k: old(l.pos) + opener <= k && k + len(end) <= l.pos ==> !(l.Buffer[k] == end[0] && (len(end) == 1 || l.Buffer[k + 1] == end[1])))
 // @   panics when mustEnd && !noPanic
 // @   modifies l.pos, l.File.lines
-// @   loop 0 invariant LexInv(l) && old(l.pos) <= l.pos && l.File.lines == old(l.File.lines)
+// @   loop 0 invariant LexInv(l) && old(l.pos) + opener <= l.pos && l.File.lines == old(l.File.lines)
+// @   loop 0 invariant[C13,C14] forall k: old(l.pos) + opener <= k && k < l.pos ==> !(k + len(end) <= len(l.Buffer) && l.Buffer[k] == end[0] && (len(end) == 1 || l.Buffer[k + 1] == end[1]))
 // @   loop 0 decreases len(l.Buffer) - l.pos
 
 // A comment starts at p: '#', '--', '//' (to end of line) or '/*' (to '*/').
@@ -164,8 +167,8 @@ package memefish
 // @   ensures LexInv(l) && old(l.pos) <= l.pos
 // @   ensures result ==> noPanic && l.pos == len(l.Buffer) && l.pos > old(l.pos)
 // @   ensures[C14] opener: (l.pos > old(l.pos)) <==> (lineCommentAt(l.Buffer, old(l.pos)) || blockCommentAt(l.Buffer, old(l.pos)))
-// @   ensures[C13,C14] line: !result && lineCommentAt(l.Buffer, old(l.pos)) ==> l.pos == len(l.Buffer) || l.Buffer[l.pos - 1] == 10
-// @   ensures[C13,C14] block: !result && !lineCommentAt(l.Buffer, old(l.pos)) && blockCommentAt(l.Buffer, old(l.pos)) ==> l.pos >= old(l.pos) + 2 && l.Buffer[l.pos - 2] == '*' && l.Buffer[l.pos - 1] == '/'
+// @   ensures[C13,C14] line: !result && lineCommentAt(l.Buffer, old(l.pos)) ==> (l.pos == len(l.Buffer) || l.Buffer[l.pos - 1] == 10) && (forall k: old(l.pos) <= k && k < l.pos - 1 ==> l.Buffer[k] != 10)
+// @   ensures[C13,C14] block: !result && !lineCommentAt(l.Buffer, old(l.pos)) && blockCommentAt(l.Buffer, old(l.pos)) ==> l.pos >= old(l.pos) + 4 && l.Buffer[l.pos - 2] == '*' && l.Buffer[l.pos - 1] == '/' && (forall k: old(l.pos) + 2 <= k && k < l.pos - 2 ==> !(l.Buffer[k] == '*' && l.Buffer[k + 1] == '/'))
 // @   panics when !noPanic
 // @   modifies l.pos, l.File.lines
 
@@ -198,7 +201,7 @@ package memefish
 // @   ensures[C14] glued: l.pos < len(l.Buffer) && isIdentPart(l.Buffer[l.pos]) ==> l.Token.Kind == "<bad>"
 // @   ensures[C14] kind: l.Token.Kind == "<int>" ==> int && (l.Token.Base == 10 || l.Token.Base == 16) && l.Token.Base == base
 // @   ensures[C14] kindf: l.Token.Kind == "<float>" ==> !int && base == 10
-// @   ensures[C14] hexprefix: (base == 16) <==> (old(l.pos) + 1 < len(l.Buffer) && l.Buffer[old(l.pos)] == '0' && (l.Buffer[old(l.pos) + 1] == 'x' || l.Buffer[old(l.pos) + 1] == 'X'))
+// @   ensures[C14] hexprefix: (base == 16) <==> (old(l.pos) + 2 < len(l.Buffer) && l.Buffer[old(l.pos)] == '0' && (l.Buffer[old(l.pos) + 1] == 'x' || l.Buffer[old(l.pos) + 1] == 'X') && isHexDigit(l.Buffer[old(l.pos) + 2]))
 // @   ensures[C14] munch: l.pos < len(l.Buffer) ==> !(base == 10 && isDigit(l.Buffer[l.pos])) && !(base == 16 && isHexDigit(l.Buffer[l.pos])) && !(base == 10 && int && !exp && l.Buffer[l.pos] == '.')
 // @   panics when !noPanic
 // @   modifies l.pos, l.Token.Kind, l.Token.Base, l.File.lines
